@@ -136,3 +136,25 @@ for _k, _v in _EXTRA.items():
     PROPS[_k]['text'] = PROPS[_k]['text'].rstrip() + _v
 PROPS['C01']['text'] = PROPS['C01']['text'].rstrip() + ' The bodies of the 93 untransformed composite fast paths (SSE2, MMX and portable C) are decided by C02-R10 (shared with C02), and the HSL saturation helper\'s channel classification is checked against all weak orderings of r, g, b on every path of its comparison tree (C01-R7).'
 PROPS['C02']['text'] = PROPS['C02']['text'].replace('(67 routine x operator x format-class combinations:', '(93 routine x operator x format-class combinations over SSE2, MMX and the portable C fast paths, the latter through the derived header:')
+
+_EXTRA2 = {
+ 'C01': ' Early returns of a fast path taken before its pixel loops (solid source == 0 ...) must leave exactly what the operator requires (C02-R10); the opacity flag sites of C09-R2, including the exact `i < n_stops` bound of the gradient-stop loop, are part of this check.',
+ 'C02': ' The 25 C combiners are decided here too (C01-R4, helper calls with several outcomes split the caller\'s path); SIMD fill words replicate the filler exactly (C02-R11 bit provenance); convolution totals are signed in every fetcher (C02-R12, found defect F17: the general path clipped negative totals to 0xff while the C fast path gives 0 - fixed); axis consistency of the convolution readers (C02-R13); SIMD scanline fetchers of alpha-less formats deliver opaque pixels in head, body and tail (C02-R14).',
+ 'C03': ' Every consulted clip is guarded by that object\'s have_clip_region (C03-R1); the row bound of raw writers needs the exact `row >= height` clamp (or a transitive bound through an exactly clamped value) (C03-R2); the alpha-map setter\'s early return is checked (C14-R3).',
+ 'C06': ' Merge-or-append decisions of the band code merge on equality (x1 <= x2), 14 sites including validate (C06-R5).',
+ 'C07': ' Clamps of one axis are never conditional on range tests of the other axis (C07-R5).',
+ 'C08': ' Convolution totals signed (C08-R7) and coefficient products 64-bit (C08-R8); the second bilinear neighbour is first+1 of the unmapped coordinate (C08-R7n, 22 fetchers); the tiled rotations walk the source by +stride (90) / -stride (270) per destination pixel (C08-R8r, symbolic derivative); outside samples stay 0 (C09-R6).',
+ 'C09': ' SIMD fetchers of alpha-less formats deliver alpha 1 in every loop (C09-R5); a 0 substituted for an outside sample is never or-ed with the alpha mask afterwards (C09-R6); fill_boxes\' OVER->SRC rewrite (C19-R6).',
+ 'C10': ' SIMD scanline fetcher bodies executed symbolically: every loop writes the source pixel with alpha forced (C10-R8); both generic float readers widen with the image\'s own format (C10-R9).',
+ 'C11': ' Shortcuts on the integer part of w also test the 16-bit fraction (C11-R7).',
+ 'C12': ' Divisions of the 64-bit edge error term are formed before any narrowing (C12-R7); in the a8 rasteriser the row count restarts (constant) on every path that writes out the whole pending span (C12-R8, path-sensitive phi resolution).',
+ 'C13': ' In functions with a projective and a non-projective pixel loop the latter is unreachable when a transform is present and w != 1 (C13-R7, partial evaluation).',
+ 'C14': ' A consulted clip requires have_clip_region of the same object (C03-R1); a clip setter that reports success has replaced the clip (C05-R4).',
+ 'C15': ' No allocation result is handed on or dropped untested (C15-R7, path query from the call to the next hand-over); no field is left dangling after a free on a failure path (C15-R8).',
+ 'C17': ' clear_table (also in its memset form) resets both counters; every site that switches component alpha on uses the same predicate on the format (C17-R5).',
+ 'C18': ' Coefficient products are formed in 64 bits in every reader (C18-R8).',
+ 'C19': ' The value stored by the SIMD fills is the filler replicated bit-exactly for each accepted depth (C19-R8).',
+ 'C20': ' Outside destructors a freed field (or a finalised embedded region) is re-established on every path to a return (C20-R7).',
+}
+for _k, _v in _EXTRA2.items():
+    PROPS[_k]['text'] = PROPS[_k]['text'].rstrip() + _v
